@@ -33,7 +33,9 @@ TTP_INSTANCES = ["circ4", "circ6", "con4", "gal4", "nl4", "nl6", "sup4",
                  "circ8", "circ10", "circ12", "nl10", "circ16", "con12",
                  "nl8"]
 QAP_INSTANCES = ["chr12a", "had12", "nug12", "tai12a", "scr12"]
-INSTGEN_INSTANCES = [("beng01", 0.25), ("cl01_020_01", 0.125),
+# as in instgen/experiment.py every template comes with both slack variants
+INSTGEN_INSTANCES = [("beng01", 0.25), ("beng01", 0.125),
+                     ("cl01_020_01", 0.25), ("cl01_020_01", 0.125),
                      ("cl02_020_01", 0.25), ("beng02", 0.125)]
 DC_INSTANCES = [("stuart_landau", "linear"), ("lorenz", "linear"),
                 ("stuart_landau", "quadratic")]
